@@ -4,6 +4,7 @@ import ast
 import inspect
 import re
 import sys
+import threading
 import tokenize
 import types
 from ast import NodeTransformer, NodeVisitor
@@ -20,6 +21,10 @@ from .utils import ABSENT, DictPile
 
 _IDX = count()
 _GENERIC = Element(name=None)
+
+# Serializes the bookkeeping and code swapping done when probes in
+# different threads tool/untool the same function.
+_tooling_lock = threading.RLock()
 
 
 class Key:
@@ -1157,22 +1162,25 @@ class SyncedStackedTransforms(StackedTransforms):
         self.target = fn
 
     def _conform(self, new):
-        self.tset._conform(new)
-        self._apply(self.target)
-        self.conformer.code = new.__code__
+        with _tooling_lock:
+            self.tset._conform(new)
+            self._apply(self.target)
+            self.conformer.code = new.__code__
 
     def push(self, captures):
-        super().push(captures)
-        try:
-            self._apply(self.target)
-        except Exception:
-            # The function cannot be instrumented: do not leave it counted
-            super().pop(captures)
-            raise
+        with _tooling_lock:
+            super().push(captures)
+            try:
+                self._apply(self.target)
+            except Exception:
+                # The function cannot be instrumented: do not leave it counted
+                super().pop(captures)
+                raise
 
     def pop(self, captures):
-        super().pop(captures)
-        self._apply(self.target)
+        with _tooling_lock:
+            super().pop(captures)
+            self._apply(self.target)
 
     def _apply(self, fn):
         _, code, info, token = self.get()
@@ -1184,8 +1192,17 @@ class SyncedStackedTransforms(StackedTransforms):
         except ImportError:  # pragma: no cover
             pass
 
-        fn.__code__ = code
-        fn.__ptera_info__ = info
-        fn.__ptera_token__ = token
+        if info is not None:
+            # A call running concurrently in another thread must find what
+            # the new code refers to (the self reference, the variable
+            # info) as soon as it can see the new code: publish them first.
+            fn.__ptera_info__ = info
+            fn.__ptera_token__ = token
+            fn.__globals__[fn.__ptera_token__] = fn
+            fn.__code__ = code
+        else:
+            fn.__code__ = code
+            fn.__ptera_info__ = info
+            fn.__ptera_token__ = token
+            fn.__globals__[fn.__ptera_token__] = fn
         fn.__ptera_discard__ = False
-        fn.__globals__[fn.__ptera_token__] = fn
